@@ -17,7 +17,7 @@
    - tree_ok         sibling data_ids unique, typed nodes have a kind, nodes sharing a data_id share their data *)
 From Coq Require Import List ZArith Bool String.
 From NT Require Import Sx Rose Serialize SerializeSpec SerCompressProofs SerWriterProofs SerReaderProofs SerIsoProofs SerializeProofs
-     SerTheorems SerWitness SerReaderPerm.
+     SerTheorems SerWitness SerReaderPerm SerWitness2.
 From NTGen Require Import Generated.
 Import ListNotations.
 Open Scope list_scope.
@@ -54,10 +54,7 @@ Print Assumptions C12_layout_parent.
 Theorem C12_to_list_iter_layout : forall c ser km vm f,
   ids_ok f -> km_ok km -> entries_ok c ser km vm f ->
   to_list_iter c ser km vm f = Ok (layout c ser km vm f).
-Proof.
-  intros c ser km vm f Hids Hkm Hent. apply SerWriterProofs.to_list_iter_layout; [exact Hids|].
-  intros t Ht. apply SerWriterProofs.full_data_spec; [exact Hkm|]. intros Eb. now apply Hent.
-Qed.
+Proof. exact to_list_iter_layout_ok. Qed.
 Print Assumptions C12_to_list_iter_layout.
 
 (* the shortening loop writes exactly what the header maps declare, and the reader's loop undoes it *)
@@ -66,9 +63,7 @@ Theorem C12_shortening_as_declared : forall km vm d,
   compress_dict km vm d = Ok (short_dict km vm d) /\
   uncompress_dict (ikm_of km) (vmj_of vm) (short_dict km vm d) = Ok (canon_dict km d) /\
   Permutation.Permutation (canon_dict km d) d.
-Proof.
-  intros km vm d Hkm Hd. split; [now apply compress_dict_short|]. split; [now apply uncompress_short|apply canon_perm].
-Qed.
+Proof. exact shortening_as_declared. Qed.
 Print Assumptions C12_shortening_as_declared.
 
 (* 2. The reader accepts documents of that layout produced by any other means: it returns the header
@@ -154,10 +149,10 @@ Theorem C12_generated_tables :
   FILE_FORMAT_VERSION = t_ "1.0" /\
   TREE_KEY_MAP = [(t_ "data_id", t_ "i"); (t_ "str", t_ "s")] /\
   TYPED_KEY_MAP = [(t_ "data_id", t_ "i"); (t_ "str", t_ "s"); (t_ "kind", t_ "k")] /\
-  TREE_VALUE_MAP = [] /\ TYPED_VALUE_MAP = [] /\
+  FS_KEY_MAP = [] /\ TREE_VALUE_MAP = [] /\ TYPED_VALUE_MAP = [] /\
   DEFAULT_CHILD_TYPE = t_ "child" /\
   (forall c, km_ok (default_key_map c)).
-Proof. repeat split; try reflexivity; apply default_km_ok. Qed.
+Proof. exact generated_tables. Qed.
 Print Assumptions C12_generated_tables.
 
 (* ---- non-vacuity: the hypotheses hold for a concrete mapper pair on every tree satisfying tree_ok,
